@@ -99,5 +99,5 @@ func (rp *RefPrices) Normalized(day Day, v string) map[string][]decimal.Decimal 
 func (rp *RefPrices) Direct(day Day, c, v string) (decimal.Decimal, bool) {
 	e := rp.edges(day)
 	p, ok := e[edgeKey{v, c}]
-	return p, ok
+	return p.Truncate(8), ok // one step from v: truncated like every step (matters for quotes with more than 8 decimals)
 }
